@@ -1,0 +1,25 @@
+//go:build verif
+
+package push
+
+import (
+	"fmt"
+	"sort"
+	"strings"
+)
+
+// VerifParseLinkHeader runs parseLinkHeader and renders the result
+// canonically (one "uri{k=v;...}" item per resource). Only compiled with
+// the "verif" build tag (runtime-verification harness, property C19).
+func VerifParseLinkHeader(s string) []string {
+	var out []string
+	for _, r := range parseLinkHeader(s) {
+		var ps []string
+		for k, v := range r.params {
+			ps = append(ps, fmt.Sprintf("%q=%q", k, v))
+		}
+		sort.Strings(ps)
+		out = append(out, fmt.Sprintf("%q{%s}", r.uri, strings.Join(ps, ";")))
+	}
+	return out
+}
